@@ -240,3 +240,11 @@ SUBS = [
     Sub("vtk", check_vtk, vtk_case(), nontrivial=nontrivial, quick=300, thorough=2500),
     Sub("legacy", check_legacy, legacy_case(), quick=100, thorough=600),
 ]
+
+
+# objects with a history (reads that may fill caches, in-place writes): observables equal those of a fresh object
+from pbt import aged as _aged  # noqa: E402
+
+SUBS.append(_aged.sub("C16", quick=60))
+ASSUMPTIONS = list(ASSUMPTIONS) + ["aged sub-property: library results are a function of the public primary state "
+                                   "(corners, n, names, units, bc, subregions, array, validity, labels, mapping, unit)"]
